@@ -133,7 +133,7 @@ func c11Chars(s string) []string {
 }
 
 type c11Params struct {
-	F, R                             string
+	F, R                            string
 	Ef, Er, Mn, Mx, Ext, Full, Circ int
 }
 
@@ -292,9 +292,10 @@ func c11Key(a c11Amp, full bool) string {
 }
 
 // c11Compare: the reported multiset against the multiset the specification exported.
-//   spurious: a (segment, direction) the specification does not have;  annot: segment right, match
-//   strings / error counts wrong;  missing: an amplicon of the specification not reported;  count:
-//   reported, but not as many times as the specification has pairs of sites.
+//
+//	spurious: a (segment, direction) the specification does not have;  annot: segment right, match
+//	strings / error counts wrong;  missing: an amplicon of the specification not reported;  count:
+//	reported, but not as many times as the specification has pairs of sites.
 func c11Compare(got, want []c11Amp) string {
 	wk, wf := map[string]int{}, map[string]int{}
 	for _, a := range want {
